@@ -1128,7 +1128,14 @@ class ListTerm(PreTerm):
     def __init__(self, value):
         assert isinstance(value, (list, tuple))
         # copy and standardize to a list of terms (plain Python items as values)
-        self.value = [vi if isinstance(vi, PreTerm) else Value(vi) for vi in value]
+        def as_term(vi):
+            if isinstance(vi, PreTerm):
+                return vi
+            if hasattr(vi, "item") and hasattr(vi, "dtype") and (vi.dtype.kind in "biuf"):
+                vi = vi.item()  # a numpy number
+            return Value(vi)
+
+        self.value = [as_term(vi) for vi in value]
         PreTerm.__init__(self)
 
     def is_equal(self, other):
@@ -1203,8 +1210,13 @@ class DictTerm(PreTerm):
 
         def canonical(v):
             # numpy scalars as the equivalent Python scalars (as Value does), so the printed dictionary can be read back
-            if hasattr(v, "item") and hasattr(v, "dtype") and (not hasattr(v, "__len__")):
-                return v.item()  # any numpy scalar (int32, float32, ...)
+            if (
+                hasattr(v, "item")
+                and hasattr(v, "dtype")
+                and (not hasattr(v, "__len__"))
+                and (v.dtype.kind in "biuf")
+            ):
+                return v.item()  # any numpy number (int32, float32, ...); dates and durations stay what they are
             canonical_type = data_algebra.util.map_type_to_canonical(type(v))
             if (canonical_type is not type(v)) and (v is not None):
                 return canonical_type(v)
